@@ -427,6 +427,9 @@ class Normaliser:
             return r
         if name in ("id",) and len(args) == 1:
             return self.rat(args[0])
+        if name == "numpy.array" and len(args) == 1 and not isinstance(args[0], (ast.List, ast.Tuple, ast.ListComp, ast.GeneratorExp, ast.Constant)) \
+                and kws and all(k == "copy" and ast.unparse(v) == "True" for k, v in kws.items()):
+            return self.rat(args[0])        # a copy of an array has its value
         if name == "cast" and len(args) == 2:
             return self.rat(args[1])
         if name == "*" and len(args) == 2:
